@@ -25,6 +25,7 @@ type variant struct {
 	Construct string // substring expected in the failing construct
 	Benign    bool   // the check must exit 0
 	More      []edit // further edits of the same variant
+	Patch     string // a unified diff (path relative to the verif directory) applied before the edits: a kept refactoring
 }
 
 type edit struct {
@@ -117,7 +118,21 @@ func runVariant(v variant, repo string) variantOutcome {
 		out.Reported = err.Error()
 		return out
 	}
+	if v.Patch != "" {
+		exe, _ := os.Executable()
+		pf := filepath.Join(filepath.Dir(filepath.Dir(exe)), v.Patch)
+		ga := exec.Command("git", "apply", "--unsafe-paths", pf)
+		ga.Dir = scratch
+		if ob, err := ga.CombinedOutput(); err != nil {
+			out.Outcome = "skipped"
+			out.Reported = "the kept refactoring " + v.Patch + " does not apply to the current tree: " + strings.TrimSpace(string(ob))
+			return out
+		}
+	}
 	edits := append([]edit{{v.File, v.Old, v.New, v.Nth}}, v.More...)
+	if v.File == "" {
+		edits = v.More
+	}
 	for _, e := range edits {
 		ok, err := applyEdit(scratch, e)
 		if err != nil || !ok {
